@@ -166,11 +166,36 @@ def suspects():
     ]
 
 
+def breadth_suspects():
+    """WIDE rather than deep inputs: long flat chains / sequences of one construct.  Their size is linear, so the
+    compiler must answer within the time limit (an exponential pass over a left-nested chain shows here)"""
+    out = []
+    for n in (40, 200):
+        for op in ("+", "-", "*", "|", "&&", "||", "=="):
+            lit = {"&&": "true", "||": "false", "==": "true", "*": "1"}.get(op)
+            consts = [lit] * n if lit else [str(i % 7 + 1) for i in range(n)]
+            out.append(("breadth:const-chain %s x%d" % (op, n), "x = " + (" %s " % op).join(consts) + "\nprint x\n"))
+            var = {"&&": "b", "||": "b", "==": "b"}.get(op, "v")
+            out.append(("breadth:var-chain %s x%d" % (op, n), "v = 1\nb = true\nx = " + (" %s " % op).join([var] * n) + "\nprint x\n"))
+        out.append(("breadth:mixed-chain x%d" % n, "v = 2\nx = " + " + ".join(("v" if i % 5 == 4 else str(i % 9)) for i in range(n)) + "\nprint x\n"))
+        out.append(("breadth:str-chain x%d" % n, "x = " + " + ".join('"s%d"' % (i % 10) for i in range(n)) + "\nprint x\n"))
+        out.append(("breadth:float-chain x%d" % n, "x = " + " + ".join("%d.5" % (i % 10) for i in range(n)) + "\nprint x\n"))
+        out.append(("breadth:list-literal x%d" % n, "x = [" + ", ".join(str(i) for i in range(n)) + "]\nprint x.len()\n"))
+        out.append(("breadth:args x%d" % n, "f = fn(" + ", ".join("a%d: int" % i for i in range(n)) + ") -> int { return a0 }\nprint f(" + ", ".join(str(i) for i in range(n)) + ")\n"))
+        out.append(("breadth:else-if x%d" % n, "v = 3\nif v == 0 { print 0 }" + "".join(" else if v == %d { print %d }" % (i, i) for i in range(1, n)) + " else { print 9 }\n"))
+        out.append(("breadth:statements x%d" % n, "".join("a%d = %d\n" % (i, i) for i in range(n * 5)) + "print a0\n"))
+        out.append(("breadth:index-chain x%d" % min(n, 60), "l = [0]\nx = l" + "[l" * 0 + "[0]" * 1 + "\n" + "y = " + "l[" * min(n, 60) + "0" + "]" * min(n, 60) + "\nprint y\n"))
+        out.append(("breadth:neg-chain x%d" % min(n, 60), "v = 1\nx = " + "-(" * min(n, 60) + "v" + ")" * min(n, 60) + "\nprint x\n"))
+        out.append(("breadth:not-chain x%d" % min(n, 60), "b = true\nx = " + "!(" * min(n, 60) + "b" + ")" * min(n, 60) + "\nprint x\n"))
+        out.append(("breadth:map-literal x%d" % n, "m = map[int, int] { " + ", ".join("%d: %d" % (i, i) for i in range(n)) + " }\nprint m.len()\n"))
+    return out
+
+
 def build_inputs(ctx, gr, n_gen, n_mut, n_mutgen, n_grid=0):
     """-> list of cases {name, stream, files, entry}"""
     rng = ctx.rng
     cases = []
-    for name, text in suspects():
+    for name, text in suspects() + breadth_suspects():
         cases.append({"name": name, "stream": "suspect", "files": {"main.ms": text}, "entry": "main.ms"})
     corpus = programs.corpus_from_tests() + programs.corpus_from_examples()
     for p in corpus:
